@@ -50,6 +50,9 @@ fn kinds() -> Vec<(&'static str, XVal, Option<XFormula>, Option<u32>, Data)> {
         ("number, date style", XVal::Num("44197.5".into()), None, Some(2), Data::DateTime(calamine::ExcelDateTime::new(44197.5, calamine::ExcelDateTimeType::DateTime, false))),
         ("number, 0.00 style after a General one", XVal::Num("2.25".into()), None, Some(4), Data::Float(2.25)),
         ("formula without value", XVal::None, Some(XFormula::Plain("A1".into())), None, Data::Empty),
+        // text stored in the sheet part itself keeps its leading and trailing white space (the shared kinds keep theirs in the table part)
+        ("inline string with edge blanks", XVal::InlineStr(XText::plain("  pad\t ")), None, None, Data::String("  pad\t ".into())),
+        ("formula string with edge blanks", XVal::Str(" x \n".into(), TextEnc::Entities), Some(XFormula::Plain("\" x \"&CHAR(10)".into())), None, Data::String(" x \n".into())),
         err("#DIV/0!", CellErrorType::Div0), err("#N/A", CellErrorType::NA), err("#NAME?", CellErrorType::Name), err("#NULL!", CellErrorType::Null),
         err("#NUM!", CellErrorType::Num), err("#REF!", CellErrorType::Ref), err("#VALUE!", CellErrorType::Value),
     ]
@@ -67,6 +70,8 @@ pub fn choose_enc(ch: &mut Chooser) -> XEnc {
         apply_nf: ch.choose("enc.applyNumberFormat(1,absent,0)", 3) as u8,
         method: if ch.flag("enc.stored") { Method::Stored } else { Method::Deflated },
         explicit_t_n: ch.flag("enc.explicit_t_n"),
+        cell_attrs_reversed: ch.flag("enc.cell-attributes-in-the-order-t-s-r"),
+        odd_table_part_names: false,
         empty_rows: ch.flag("enc.empty_row_elements"),
         reorder_members: ch.flag("enc.member_order"),
         rid_shuffle: ch.flag("enc.relationship_ids_shuffled"),
@@ -193,8 +198,10 @@ fn position_sets(k: usize) -> Vec<Vec<(u32, u32)>> {
 }
 
 pub fn check(rep: &Report) {
+    // differential check on the repository's own fixtures: both read paths agree on every sheet
+    crate::props::corpus::range_vs_range_ref::<calamine::Xlsx<_>>(rep, &["xlsx", "xlsm", "xlam"]);
     let t = crate::thorough(&rep.tier);
-    rep.rule("logical sheet = anchor {A1, AB6, ZZ100, XFA1048573} x every set of <= k cells in a 3x4 window (quick: every third two-cell set) x 29 cell kinds (+ optional second sheet); encoding = 25 variation points (prefix, implicit row/cell r, dimension absent/exact/too small/too large/stale, target spelling, part-name and folder case, stored/deflated, t=n, empty row elements, member order, relationship ids not in sheet order, applyNumberFormat, .rels attribute order, rows never carrying r, text split by CDATA / comments, XML comments, optional neighbours of sheetData, boolean spelling, sst count, numFmt attribute order, General xf without numFmtId, indentation, 1904); per position set all choice vectors with <= d deviations from (number cells, default encoding), plus the full encoding product on single-cell sheets; non-trivial = at least one non-default choice; distinct = by file bytes");
+    rep.rule("logical sheet = anchor {A1, AB6, ZZ100, XFA1048573} x every set of <= k cells in a 3x4 window (quick: every third two-cell set) x 31 cell kinds (+ optional second sheet); encoding = 26 variation points (cell attribute order, prefix, implicit row/cell r, dimension absent/exact/too small/too large/stale, target spelling, part-name and folder case, stored/deflated, t=n, empty row elements, member order, relationship ids not in sheet order, applyNumberFormat, .rels attribute order, rows never carrying r, text split by CDATA / comments, XML comments, optional neighbours of sheetData, boolean spelling, sst count, numFmt attribute order, General xf without numFmtId, indentation, 1904); per position set all choice vectors with <= d deviations from (number cells, default encoding), plus the full encoding product on single-cell sheets; non-trivial = at least one non-default choice; distinct = by file bytes");
     rep.assume("generator emits only ECMA-376-legal variations listed in gen/xlsx.rs; r:-prefixed relationship ids; implicit r only where the cursor rule positions the element correctly");
     let kmax = if t { 3 } else { 2 };
     let dev = if t { 3 } else { 2 };
@@ -255,6 +262,7 @@ fn mirror(outer: &mut Chooser, inner: &Chooser, skip: usize) {
 pub fn replay(path: &str) -> i32 {
     let Ok(s) = std::fs::read_to_string(path) else { return 2 };
     let v: serde_json::Value = serde_json::from_str(&s).unwrap();
+    if let Some(c) = crate::props::corpus::replay_fixture(&v) { return c; }
     let choices: Vec<u32> = v["choices"].as_array().unwrap().iter().map(|x| x.as_u64().unwrap() as u32).collect();
     let anchor = (v["anchor"][0].as_u64().unwrap() as u32, v["anchor"][1].as_u64().unwrap() as u32);
     let positions: Vec<(u32, u32)> = v["positions"].as_array().unwrap().iter().map(|p| (p[0].as_u64().unwrap() as u32, p[1].as_u64().unwrap() as u32)).collect();
